@@ -130,7 +130,6 @@ func VerifSummarize(s *Service) VerifServiceSummary {
 	return sum
 }
 
-
 // VerifBufferStats: limits and current fill of a body buffer (for the "buffer_write" / "buffer_close" emits).
 func VerifBufferStats(b *Buffer) (maxBytes, maxMem, mem, disk int64, overflowed bool, spill string) {
 	if b.diskBuffer != nil {
